@@ -32,9 +32,21 @@ def main(argv):
     except subprocess_timeout() as e:  # pragma: no cover
         print(f"TOOL-FAILURE property={pid}: timeout {e}", file=sys.stderr)
         return 2
-    except Exception:
+    except Exception as e:
+        tb = traceback.extract_tb(e.__traceback__)
+        in_impl = [f for f in tb if f.filename.startswith(str(common.SRC.parent)) or "/repo/" in f.filename]
         traceback.print_exc()
-        return 2
+        if not in_impl:
+            return 2
+        # the implementation under test raised where the harness expected an answer: the correspondence no longer runs.
+        # Report what the oracle had found so far; with nothing concrete the line ends with no-failing-input-found.
+        where = in_impl[-1]
+        ctx.broken.append(f"correspondence aborted: {type(e).__name__}: {str(e)[:160]} raised in {where.filename}:{where.lineno} ({where.name})")
+        try:
+            return ctx.finish(getattr(sys.modules.get(f"props.{pid.lower()}"), "TRUSTED", []), search=None)
+        except Exception:  # noqa: BLE001
+            traceback.print_exc()
+            return 2
     finally:
         import shutil
         shutil.rmtree(ctx.work, ignore_errors=True)
